@@ -26,7 +26,7 @@ pub const SPEC: Spec = Spec {
     rule: "an Elements environment description decoded from the stream by gen::txenv (1..6 inputs, 0..6 outputs, every input as current index, tx version 2/1/3/0/0xffffffff, lock times and sequences around the 500000000, 0xffffffff/0xfffffffe, 1<<31 and 1<<22 boundaries, assets/values/nonces null, explicit and confidential (valid curve points), new issuances, reissuances and non-issuances with stray entropy, peg-in inputs with a well-formed peg-in witness (and, rarely, a peg-in witness on an input whose is_pegin flag is off), script_sig / script_pubkey / range and surjection proofs / annex of 0..300 bytes, witness stacks of 0..4 items with the annex present or absent, OP_RETURN scripts with every push flavour and broken ones, control blocks with 0..8 or 128 path elements, random script root and genesis hash); the environment is built with ElementsEnv::new and 67 introspection jets are run as one-jet programs on the Bit Machine: unit-source jets once, index-taking jets on EVERY in-range index and 3 out-of-range ones drawn from {n, n+1, 6, 7, 255, 256, 65535, 65536, 2^31-1, 2^31, 2^32-2, 2^32-1}, tappath on all (or sampled) path positions and out-of-range ones, total_fee on every explicit output asset and an absent one, output_null_datum on every (output, datum) position and out-of-range ones, check_lock_* on 0, the lock value, its neighbours and the maximum. Oracle: the compact bit string of each output equals the value computed in this module from the Rust-side description per the jet descriptions in elementsJets.c/env.c (hashes = SHA-256 of the described bytes, absent = left unit); check_lock_* succeed exactly when arg <= lock value; the sig_all_hash jet output equals env.c_tx_env().sighash_all(). Not asserted: annex status of a ONE-item witness stack whose item starts with 0x50 (BIP-341 requires two items; counted). Non-trivial: >= 2 inputs or >= 2 outputs, and >= 1 issuance / peg-in / confidential asset, value or nonce / annex, and an in-range query (always). Distinct by (environment digest, out-of-range indices queried).",
     design_ref: "§6 C15",
     max_len: 900,
-    quick_cases: 4_000,
+    quick_cases: 40_000,
     thorough_cases: 100_000,
     ..Spec::base("C15", "The Elements environment shown to jets is the supplied transaction", case)
 };
